@@ -1,3 +1,105 @@
+import QmiModel.Gen.OpenProgs
 import Drv.Common
-/-! stub driver for C19: replaced when the model is built -/
-def main : IO Unit := Drv.main' (fun (s : Unit) _ => (s, "bad-op")) ()
+open QmiModel.OpenProg QmiModel.Gen.OpenProgs
+
+/-!
+Line protocol of the C19 model driver (one output line per input line):
+
+  reset <Driver>          select a generated program, state := closed            → `ok nlinks=<n>`
+  open  <plan>            run its open() program on the current state            → `res=… flag=… links=… trace=… io=…`
+  close <plan>            run its close() program
+  call  guarded|bare <plan>   an arbitrary RPC method: `[checkOpen, io]` resp. `[io]`
+  isopen                                                                          → `0` / `1`
+
+<plan> is `-` (no fault) or `<k>:<kind>` (the k-th fault point of this call raises <kind>).
+Fault counter, trace and I/O log are per call.
+-/
+
+structure DS where
+  drv : Option Driver
+  st : St
+
+def kindOfString : String → Option Kind
+  | "timeout" => some .timeout
+  | "instr" => some .instr
+  | "os" => some .os
+  | "value" => some .value
+  | "other" => some .other
+  | "invalidOp" => some .invalidOp
+  | _ => none
+
+def kindToString : Kind → String
+  | .timeout => "timeout"
+  | .instr => "instr"
+  | .os => "os"
+  | .value => "value"
+  | .other => "other"
+  | .invalidOp => "invalidOp"
+
+/-- `some none` = no fault, `none` = unparsable -/
+def parsePlan (s : String) : Option Plan :=
+  if s == "-" then some none else
+  match s.splitOn ":" with
+  | [k, kd] =>
+    match k.toNat?, kindOfString kd with
+    | some k, some κ => some (some (k, κ))
+    | _, _ => none
+  | _ => none
+
+def insertSorted (x : Nat) : List Nat → List Nat
+  | [] => [x]
+  | y :: r => if x ≤ y then x :: y :: r else y :: insertSorted x r
+
+def sortNat (l : List Nat) : List Nat := l.foldr insertSorted []
+
+def showList (l : List Nat) : String :=
+  if l.isEmpty then "-" else ",".intercalate (l.map toString)
+
+def showRes : Res → String
+  | .ok => "ok"
+  | .raised κ => "exc:" ++ kindToString κ
+  | .outOfFuel => "fuel"
+
+def report (r : St × Res) : String :=
+  s!"res={showRes r.2} flag={if r.1.instrOpen then 1 else 0} links={showList (sortNat r.1.links)} " ++
+  s!"trace={showList r.1.trace.reverse} io={showList r.1.ioLog.reverse}"
+
+/-- start of a call: per-call counters cleared, flag and links kept -/
+def fresh (s : St) : St := { s with ioLog := [], trace := [], cnt := 0 }
+
+def runCall (d : DS) (p : Prog) (plan : String) : DS × String :=
+  match parsePlan plan with
+  | none => (d, "bad-op")
+  | some P =>
+    let r := exec P fuel0 p (fresh d.st)
+    ({ d with st := r.1 }, report r)
+
+def stepLine (d : DS) (line : String) : DS × String :=
+  match line.splitOn " " with
+  | ["reset", name] =>
+    match allDrivers.find? (fun x => x.name == name) with
+    | some drv => ({ drv := some drv, st := init }, s!"ok nlinks={drv.nlinks}")
+    | none => ({ drv := none, st := init }, "bad-op")
+  | ["open", plan] =>
+    match d.drv with
+    | some drv => runCall d drv.openP plan
+    | none => (d, "bad-op")
+  | ["close", plan] =>
+    match d.drv with
+    | some drv => runCall d drv.closeP plan
+    | none => (d, "bad-op")
+  | ["call", "guarded", plan] =>
+    match d.drv with
+    | some _ => runCall d [.atom 9001 .checkOpen, .atom 9002 .io] plan
+    | none => (d, "bad-op")
+  | ["call", "bare", plan] =>
+    match d.drv with
+    | some _ => runCall d [.atom 9002 .io] plan
+    | none => (d, "bad-op")
+  | ["isopen"] =>
+    match d.drv with
+    | some _ => (d, if d.st.instrOpen then "1" else "0")
+    | none => (d, "bad-op")
+  | _ => (d, "bad-op")
+
+def main : IO Unit := Drv.main' stepLine { drv := none, st := init }
